@@ -350,3 +350,15 @@ ctor_index!(c13_unknown_index_e3, E3, 3);
 ctor_index!(c13_unknown_index_es, ES, 3);
 //@ props=C05,C13 tier=thorough bounds=ETm(transient-in-the-middle):every-constructor-index>=3;zero-payload cap=2400
 ctor_index!(c13_unknown_index_etm, ETm, 3);
+
+
+proof! {
+    //@ props=C06,C05,C12 tier=quick bounds=unknown-length-form-of-Vec<u16>:marker,-1;element-tags-and-terminator-symbolic(5-bytes:01,t1,hi,lo,t2) cap=900
+    fn c06_unknown_form_tags() unwind(8) {
+        let mut data: [u8; 5] = sym::bytes();
+        data[0] = 0x01; // zig-zag(-1): unknown-length form
+        raw_check::<Vec<u16>>(&data, true);
+        cover!(data[1] == 1 && data[4] == 0);
+        cover!(data[1] == 2);
+    }
+}
